@@ -4,7 +4,9 @@ CONSTANTS
   Cap = 3
   Swapped = FALSE
   KeepLen = FALSE
-  MaxResend = 1
+  SessShared = FALSE
+  Locals = {1, 2}
+  MaxResend = 0
 INIT Init
 NEXT Next
 VIEW View
